@@ -25,8 +25,12 @@ RULE = (
 
 def gains(d, rng, shape, complex_, span=100):
     u = rng.uniform(-span, span, size=shape)
-    mode = d.choice(['wide', 'wide', 'narrow', 'tiny', 'huge'])
-    if mode == 'narrow':
+    mode = d.choice(['wide', 'wide', 'narrow', 'tiny', 'huge', 'near-unity'])
+    if mode == 'near-unity':
+        # level mismatch of a few ppm (e.g. observations that were normalised
+        # in another precision)
+        u = rng.uniform(-1, 1, size=shape) * 1e-6 * span / 100
+    elif mode == 'narrow':
         u = u / span * 3
     elif mode == 'tiny':
         u = -np.abs(u)
@@ -46,6 +50,10 @@ def _mixture(d, ctx, kind, **kw):
     ctx.describe(**case.describe())
     rng = d.rng()
     complex_obs = kind != 'vmfmm'
+    if d.int(0, 3) == 0:
+        # observations that already have unit norm
+        case.y = mm.normalize(case.y)
+        ctx.label('pre-normalised')
     g, span, mode = gains(d, rng, (*case.lead, case.N, 1), complex_obs)
     scaled = case.copy(y=case.y * g)
     if kind == 'vmfcacgmm':
@@ -84,7 +92,7 @@ def _mixture(d, ctx, kind, **kw):
     if np.all(np.isfinite(d1)) and np.all(np.isfinite(d2)):
         require_close(d1, d2, 'log-density-differences-depend-on-magnitude',
                       atol=1e-7, rtol=1e-9, kind=kind)
-    ctx.nontrivial(span >= 6 and case.K >= 2)
+    ctx.nontrivial((span >= 6 or mode == 'near-unity') and case.K >= 2)
 
 
 def _make(kind, quick, thorough, **kw):
@@ -183,4 +191,4 @@ def single_distributions(d, ctx):
                                 concentration=np.asarray(10 ** rng.uniform(-3, 2.5, size=lead)))
         a, b = ctx.lib(m.log_pdf, y), ctx.lib(m.log_pdf, ys)
         require_close(a, b, 'vmf-logpdf', atol=1e-7, rtol=1e-9)
-    ctx.nontrivial(unit_only or span >= 6)
+    ctx.nontrivial(unit_only or span >= 6 or mode == 'near-unity')
